@@ -356,6 +356,14 @@ theorem modes : ∀ u : Fin 512,
     random_write_seed_umaskAfter (u.val : Int) = [(u.val : Int)] := by
   decide +kernel
 
+/-- The seed is written to a FRESH file: whatever sits at the seed path by then (a file of another owner or mode planted while
+    the daemon ran, a symbolic link) is unlinked immediately before the creating `open`, for every input - so the mode
+    argument of that `open` (bounded by `modes` above) is what the seed file gets, and no link is followed. -/
+theorem seed_written_fresh (u nb ur eur fd nl nw n cr : Int) :
+    (random_write_seed u nb ur eur fd nl nw n cr).events.take 2 = [("unlink", []), ("open", [0o600, u])] := by
+  unfold random_write_seed
+  split <;> rfl
+
 /-- A lock file that already exists is only accepted if it is a regular file with permission bits exactly 0200
     owned by the effective user: `_lock_stat` is fatal otherwise (with or without `--force`), … -/
 theorem lock_exact (frc fmode fuid euid : Int) (hm : 0 ≤ fmode) :
